@@ -800,6 +800,9 @@ class Interp(object):
         if isinstance(obj, dict) and name in ('items', 'keys', 'values'):
             return Builtin('dict.' + name, lambda: list(getattr(obj,
                                                                 name)()))
+        if isinstance(obj, dict) and name in ('update', 'setdefault', 'copy',
+                                              'clear'):
+            return Builtin('dict.' + name, getattr(obj, name))
         raise Undecided('attribute %s of %r' % (name, obj))
 
     def call_flags(self, ci):
